@@ -16,7 +16,7 @@ TEXT = {
          "engine S: exhaustive enumeration of generators, field products and row subsets"),
  "C05": ("All 38 tables against a golden snapshot, transposes, minimum distance by enumeration, whitelist of shapes, and every erasure set with fewer than hd losses decoded and reconstructed for several payload sizes, in both the SSE2 and the portable build.",
          "engine S: exhaustive enumeration over tables x erasure sets, two build flavours"),
- "C06": ("All (R, X) pairs with |R|+|X| <= tolerance+1 for all XOR tables and RS n<=10|12 (structured above), both list orders; the answer is checked for range, disjointness, rank sufficiency and by actually reconstructing from only the listed fragments.",
+ "C06": ("All (R, X) pairs with |R|+|X| <= tolerance+1 for all XOR tables and RS n<=10|12 (structured above), both list orders (and overlapping lists for the Reed-Solomon back ends); the answer is checked for range, disjointness, rank sufficiency and by actually reconstructing from only the listed fragments.",
          "engine S: exhaustive enumeration of requests, rank + constructive oracle"),
  "C07": ("Every byte of every fragment for all shapes (RS, flat-XOR, ISA-L, null; also with caller-supplied word sizes) x checksum types x lengths x legacy-CRC switch against an independently written serializer; layout constants checked at their literal offsets; a failure that only shows after earlier calls in the same process is replayed by a single-process enumeration.",
          "engine S: exhaustive comparison with an independent serializer"),
@@ -44,7 +44,7 @@ TEXT = {
          "engine T: stateless preemption-bounded schedule enumeration under a serialising scheduler"),
  "C19": ("Both adapters over all 496 shapes through a clean-room plug-in: round trip, reconstruct fidelity, no-silent-corruption over all subsets (n<=9|12), fragments_needed, every position (and pair) of an injected matrix-inversion failure on 8 shapes, and every singular survivor set found by a reference search over ALL erasure sets with |E|<=m for n<=16|20 (1,644 sets in quick).",
          "engine S with reference plug-in: exhaustive enumeration + inversion-fault enumeration"),
- "C20": ("Nine CRC32 configurations x every survivor set x every damaged subset of size <=2 (all sizes for n<=6 in thorough) x eleven damage kinds, plus every single payload bit of every fragment as encoded and as rebuilt by reconstruct, forced checks on: result must be the original iff the valid fragments suffice, an error when they cannot, never other bytes.",
+ "C20": ("Nine CRC32 configurations x every survivor set x every damaged subset of size <=2 (all sizes for n<=6 in thorough) x fifteen damage kinds (incl. foreign fragments with consistently stamped other payloads and opposite-endian twins), a damaged copy listed before an intact one, plus every single payload bit of every fragment as encoded and as rebuilt by reconstruct, forced checks on: result must be the original iff the valid fragments suffice, an error when they cannot, never other bytes.",
          "engine F: exhaustive enumeration of survivor x damaged subsets"),
 }
 NOTE = ("Trusted base: gcc, AddressSanitizer/ThreadSanitizer, the reference models in /verif/ref (self-tested by setup: zlib cross-check, golden CRC vectors, field axioms, table distance), "
@@ -88,7 +88,7 @@ def main():
             {"name": "T", "path": "harness/engine_t.c", "serves_properties": ["C18", "C15"], "kind_free_text": "preemption-bounded schedule explorer under a serialising scheduler, ASan and TSan monitors"},
         ],
         "checks": checks,
-        "notes": "Known findings: KNOWN_FINDINGS.txt (all 11 defects found so far were repaired by fix: commits in /repo; no open findings). Seeded breaking changes (157 kept, 153 caught, 3 outside every listed property) and which check catches each: seeded/RESULTS.md and DESIGN.md section 8. harness/engine_m.c is an unregistered probe (allocation failure is outside every property's quantifier, DESIGN.md section 9).",
+        "notes": "Known findings: KNOWN_FINDINGS.txt (all 11 defects found so far were repaired by fix: commits in /repo; no open findings). Seeded breaking changes (179 kept, 176 caught, 3 outside every listed property) and which check catches each: seeded/RESULTS.md and DESIGN.md section 8. harness/engine_m.c is an unregistered probe (allocation failure is outside every property's quantifier, DESIGN.md section 9).",
         "not_applicable": na,
     }
     json.dump(man, open(os.path.join(VERIF, "MANIFEST.json"), "w"), indent=1)
